@@ -111,6 +111,13 @@ func runC15(c *CaseCtx) {
 	defer run.Close()
 	g := &Gen{R: r, U: u, Cfg: cfg, KV: kind == "kv" || kind == "mixed", List: kind == "list", Set: kind == "set" || kind == "mixed",
 		ZSet: kind == "zset" || kind == "mixed", TTL: true, MaxOps: 4}
+	// cases with a Merge that fails half way on an injected fault: a partially merged directory is what a crash inside
+	// Merge leaves, so the structures whose replay is order dependent are left out as in C16 (lists, positional
+	// sorted-set removals: recorded findings KF-MERGE-CRASH-LIST / -ZPOP)
+	faultedMerge := c.Case%5 == 2 && c.Case%3 != 2 && kind != "list"
+	if faultedMerge {
+		g.NoZPop = true
+	}
 	merges, mergeErrs := 0, 0
 	doMerge := func(label string) bool {
 		files := run.Files()
@@ -226,6 +233,47 @@ func runC15(c *CaseCtx) {
 			}
 		}
 		c.Stat("merges_with_every_record_dead", 1)
+	}
+	if faultedMerge && run.Files() >= 2 {
+		// a Merge that fails on an injected I/O error (creating or truncating the rewrite segment, one of its writes,
+		// a removal ...): every read must be as before ("whether it succeeds or fails"), the handle stays usable,
+		// and the later, successful Merge and the reopen must still show everything
+		for k := 0; k < 2 && !c.Violated() && !run.Dead; k++ {
+			if !run.CheckObs("before-merge") {
+				return
+			}
+			inj.armed, inj.n, inj.count, inj.fired, inj.partial = true, 1+r.Intn(14), 0, nil, r.Intn(2) == 0
+			merr, p := mergeNoPanic(run)
+			inj.armed = false
+			fired := "none"
+			if inj.fired != nil {
+				fired = fmt.Sprintf("%s %s (file operation #%d of the Merge, partial=%v)", inj.fired.Op, inj.fired.Path, inj.n, inj.partial && inj.fired.Op == "write")
+			}
+			c.Log("merge (%d files) with an injected fault: %s -> err=%v", run.Files(), fired, merr)
+			c.Stat("merges", 1)
+			if p != "" {
+				c.Violate("panic:Merge:"+p, class, fmt.Sprintf("Merge panicked after an injected fault (%s): %s", fired, p))
+				run.Dead = true
+				return
+			}
+			if inj.fired != nil {
+				c.Stat("merges_with_injected_fault", 1)
+				if merr == nil {
+					c.Stat("merge_faults_swallowed", 1)
+				}
+			}
+			if !run.CheckObs("after-faulted-merge") {
+				c.Note("injected: %s; Merge returned %v", fired, merr)
+				return
+			}
+			// the handle goes on being used
+			if !phase(3+r.Intn(5), false) {
+				return
+			}
+		}
+		if !run.Reopen() || !run.CheckObs("after-faulted-merge-reopen") {
+			return
+		}
 	}
 	if !doMerge("first") {
 		return
